@@ -392,8 +392,9 @@ def compare(case, io, mo):
     if mo and mo[0] == 'stuck':
         return 'model compiler stuck'
     m = model_view(mo)
-    if io.get('findall_inner'):
-        # outside the model's cell naming: compared without the identity of unbound variables
+    if False:
+        # (before the repair D27 the identity of variables collected by findall/3 was outside the model's cell naming and was
+        # dropped here; findall copies now and the model is exact)
         an = lambda l: [re.sub(r'_G\d+', '_G', x) for x in l]
         io = dict(io, ref=an(io['ref']), outcome=(['return', an(io['outcome'][1])] if io['outcome'][0] == 'return' and isinstance(io['outcome'][1], list) else io['outcome']))
         m = dict(m, hi=an(m['hi']))
